@@ -53,3 +53,57 @@ NOT_APPLICABLE = {
 
 PENDING = {pid: "check under construction in this session (see DESIGN.md §3); not claimed until it is registered"
            for pid in ["C01", "C02", "C03", "C04", "C05", "C07", "C08", "C09", "C12", "C13", "C14", "C15", "C17", "C18", "C19", "C20"]}
+
+META["C02"] = {
+    "LEVEL": "exploration",
+    "TIERS": {"quick": 240, "thorough": 8000},
+    "WALLCAP": {"quick": 400, "thorough": 5400},
+    "RULE": ("One evaluation = one seeded (problem, configuration, step schedule): the real solver's init and every step "
+             "(rejected attempts of forced adaptive histories included) is compared with the 50-digit reference EKF step "
+             "applied to the real pre-state (means 1e-9 Nordsieck-relative, covariances 1e-8 relative to the predicted "
+             "covariance, scales 1e-8+1e3*eps*kappa), plus the whole trajectory end to end. Distinct = distinct "
+             "(configuration cell, schedule digest); every evaluation contains >= 3 checked operations (non-trivial)."),
+    "COMPONENTS": {"real": ["solver/solver_mle/solver_dynamic", "strategy_filter", "three state-space models", "IWP/IOUP/Matern priors",
+                            "TS0/TS1 constraints", "solve_fixed_grid", "solve_adaptive_save_at loop (forced histories)"],
+                   "stub": ["ErrorEstimator/Control are history-forcing peers in forced schedules"],
+                   "seam": ["probdiffeq.backend.flow (Python-stepped)", "Solver proxy recording pre/post states"]},
+    "PROBES": ["retry_state_checked", "q>=7", "exponential_prior", "constraint_init", "diffuse_init", "second_order", "damped",
+               "step_ratio>=10"],
+    "ASSUMPTIONS": ["reference model = documented EKF in 50-digit arithmetic (sim/refmodel.py), polynomial right-hand sides",
+                    "initial Taylor coefficients are taken from the real prior (C10 is not applicable here)",
+                    "region: steps in [1e-3,1], consecutive ratio <= 100 (<= 3.3 at q>=7), q<=8, d<=3",
+                    "scale-dependent assertions skipped when 1e3*eps*kappa > 1e-2 (counted as skipped_ill_conditioned)"],
+    "LEVEL_TEXT": "Seeded exploration of step schedules fed to the real solver op by op, each operation refined against an "
+                  "independent 50-digit reference EKF from the real pre-state, plus whole-trajectory comparison. Sampling, not proof.",
+    "LEVEL_NOTE": "Trusted: sim/refmodel.py (about 350 lines, no square-root or preconditioning tricks), sim/embed.py (dense "
+                  "embedding from fields), mpmath. No fault dimension beyond the schedule (stated in DESIGN.md).",
+    "TECHNIQUE": "deterministic simulation: seeded step schedules (incl. forced rejections) + step-local refinement against an executable reference model",
+}
+
+META["C03"] = {
+    "LEVEL": "exploration",
+    "TIERS": {"quick": 160, "thorough": 6000},
+    "WALLCAP": {"quick": 420, "thorough": 5400},
+    "RULE": ("One evaluation = one seeded (problem, configuration, smoother habitat, forced or natural step history with "
+             "rejections, checkpoint placement relative to the step ends, way the last step ends) run through the real "
+             "solver and loop; the returned marginals, terminal marginal, backward factorisation (embedded from its fields) "
+             "and neighbouring/distant cross-covariances are compared with the 50-digit reference RTS smoother over the "
+             "recorded history (means 1e-7 Nordsieck-relative, covariances 1e-6 + kappa-aware term). Distinct = distinct "
+             "(configuration cell, history digest); every evaluation has >= 3 steps and >= 2 output times (non-trivial)."),
+    "COMPONENTS": {"real": ["solver/solver_mle/solver_dynamic", "strategy_smoother_fixedinterval", "strategy_smoother_fixedpoint",
+                            "Smoother.finalize / evaluate_marginals", "solve_fixed_grid", "solve_adaptive_save_at",
+                            "test_util.solve_adaptive_save_every_step", "error_residual_std + control_integral (natural histories)"],
+                   "stub": ["history-forcing ErrorEstimator/Control in forced histories"],
+                   "seam": ["probdiffeq.backend.flow (Python-stepped)", "func.jit -> identity", "recording Solver proxy"]},
+    "PROBES": ["last_step_ends_exactly_at_T", "last_step_oversteps_T", "checkpoint_within_eps_of_step_end",
+               "two_checkpoints_in_one_step", "fi_vs_fp_compared"],
+    "ASSUMPTIONS": ["reference RTS in 50-digit arithmetic over the recorded accepted steps (forward pass errors are part of the "
+                    "comparison; C02 bounds them at 1e-9)",
+                    "checkpoints placed inside the eps window or >= 1e-3 h from a step end (regular class, DESIGN.md §2.6)",
+                    "q <= 6, d <= 3, <= 60 accepted steps"],
+    "LEVEL_TEXT": "Seeded exploration of smoother habitats and step/checkpoint histories on the real solver; every returned "
+                  "marginal, the backward Markov factorisation and its cross-covariances are compared with an independent "
+                  "50-digit RTS smoother. Sampling, not proof.",
+    "LEVEL_NOTE": "Trusted: sim/refmodel.py, sim/scen.py (node list + RTS), sim/embed.py, mpmath.",
+    "TECHNIQUE": "deterministic simulation: seeded accept/reject + checkpoint histories on the real loop, reference-model (RTS) oracle over the recorded history",
+}
